@@ -5,7 +5,7 @@ import core
 from core import hx, gen_int, gen_mag
 
 ID = "C14"
-READY = False
+READY = True
 ORACLE = "c14"
 HARNESS_BIN = "c14"
 NCASES = {"quick": 9000, "thorough": 200000}
